@@ -107,6 +107,22 @@ static void env_add_rec2(int key, char const *v)
 }
 #define UOFF(p) (OFF(p) - OFF(g_U))
 '''
+
+PRE += r'''
+/* ---- body hand-over of the embedded HTTP server: bytes that arrived together with the headers (input_body_ from input_body_ptr_) are delivered before the socket is read */
+struct hbody { char *ib_p; size_t ib_n; unsigned input_body_ptr_; };
+size_t g_n0, g_pt0; char *g_ibp; int g_post_calls, g_sock_calls, g_cpy_calls, g_rel_calls; size_t g_post_n, g_sock_n, g_cpy_n; void *g_sock_p; void const *g_cpy_src; void *g_cpy_dst;
+static void update_time_rec(void) { }
+static void copy_obs(void *dst, void const *src, size_t n)
+{
+  __CPROVER_assert(__CPROVER_r_ok(src, n) && __CPROVER_w_ok(dst, n), "memcpy stays inside the buffered input and inside the caller's buffer");
+  if(g_pk < n) ((char *)dst)[g_pk] = ((char const *)src)[g_pk];
+  if(g_cpy_calls < 2) g_cpy_calls++; g_cpy_src = src; g_cpy_dst = dst; g_cpy_n = n;
+}
+static void post_rec(size_t n) { if(g_post_calls < 2) g_post_calls++; g_post_n = n; }
+static void ib_release_rec(void) { if(g_rel_calls < 2) g_rel_calls++; }
+static void sock_async_read_rec(void *p, size_t n) { if(g_sock_calls < 2) g_sock_calls++; g_sock_p = p; g_sock_n = n; }
+'''
 functions = [
     dict(cname='http_parser_step', file=H, locate=r'int step\(\)', sig='int http_parser_step(struct hparser *self)', members=['state_', 'bracket_counter_'],
          rename={'getc': 'p_getc', 'ungetc': 'p_ungetc'},
@@ -231,33 +247,56 @@ __CPROVER_ensures((g_400 == 0 && g_sn_calls != 0) ==> (g_sn_calls == 1 && g_envs
                   (OFF(g_ud_b) == g_end_off || *g_ud_b == '/')))
 __CPROVER_ensures((g_400 == 0 && g_sn_calls == 0) ==> (g_envs_calls == 0 && g_ud_b == g_U && (g_sk < g_sn_n ==> g_seen_sk)))
 '''),
+    dict(cname='http_async_read_some', file=HA, locate=lit('virtual void async_read_some(void *p,size_t s,io_handler const &h)'),
+         sig='void http_async_read_some(struct hbody *self, void *p, size_t s)', members=['input_body_ptr_'], rename={'memcpy': 'copy_obs'},
+         rewrites=[(r'update_time\(\);', 'update_time_rec();', 0), (r'input_body_\.size\(\)', 'self->ib_n', 1), (r'input_body_\.clear\(\)', 'self->ib_n = 0', 0), (r'!input_body_\.empty\(\)', '(self->ib_n != 0)', 0),
+                   (r'&input_body_\[([\w>-]+)\]', r'(self->ib_p + \1)', 0), (r'socket_\.get_io_service\(\)\.post\(h,booster::system::error_code\(\),(\w+)\);', r'post_rec(\1);', 0),
+                   (r'(?s)if\(input_body_\.capacity\(\)[^{]*\{[^}]*\}', 'ib_release_rec();', 0), (r'socket_\.async_read_some\(io::buffer\((\w+),(\w+)\),h\);', r'sock_async_read_rec(\1, \2);', 0)],
+         contract=r'''
+__CPROVER_requires(__CPROVER_rw_ok(self, sizeof(*self)) && self->ib_n <= BUF_CAP && self->input_body_ptr_ <= self->ib_n && __CPROVER_r_ok(self->ib_p, self->ib_n) && s <= BUF_CAP && __CPROVER_w_ok(p, s) &&
+                   g_post_calls == 0 && g_sock_calls == 0 && g_cpy_calls == 0 && self->ib_n == g_n0 && self->input_body_ptr_ == g_pt0 && self->ib_p == g_ibp)
+__CPROVER_assigns(self->ib_n, self->input_body_ptr_, g_post_calls, g_post_n, g_sock_calls, g_sock_p, g_sock_n, g_cpy_calls, g_cpy_src, g_cpy_dst, g_cpy_n, g_rel_calls; g_pk < s: ((char *)p)[g_pk])
+/* C01: while buffered input is left, exactly the NEXT min(left, s) buffered bytes are delivered, in order, the cursor advances by that amount (the buffer is dropped when it is used up),
+   and the socket is not touched; only with nothing buffered the read goes to the socket, for the caller's buffer and size */
+__CPROVER_ensures((g_n0 - g_pt0) != 0 ==> (g_sock_calls == 0 && g_post_calls == 1 &&
+                  g_post_n == ((g_n0 - g_pt0) < s ? (g_n0 - g_pt0) : s) &&
+                  (g_post_n != 0 ==> (g_cpy_calls == 1 && g_cpy_dst == p && g_cpy_n == g_post_n && g_cpy_src == g_ibp + g_pt0)) &&
+                  (g_pt0 + g_post_n == g_n0 ? (self->ib_n == 0 && self->input_body_ptr_ == 0)
+                                                                                                : (self->ib_n == g_n0 && self->input_body_ptr_ == g_pt0 + g_post_n))))
+__CPROVER_ensures((g_n0 - g_pt0) == 0 ==> (g_post_calls == 0 && g_cpy_calls == 0 && g_sock_calls == 1 && g_sock_p == p && g_sock_n == s && self->ib_n == 0 && self->input_body_ptr_ == 0))
+'''),
 ]
 PRE += 'size_t g_h0, g_p0, g_c0, g_u0;\n'
 
+REPLAYH = dict(replay='c01http:requests', replay_link=['-fno-access-control', '-L{BUILD}', '-lcppcms', '-L{BUILD}/booster', '-lbooster', '-lpthread'], replay_exhaustive='1500 generated requests (6 methods, configured / unconfigured script prefixes, percent-escaped path segments, query strings with a second ?, HTTP/1.0 and 1.1, mixed-case header names, blank runs after the colon, folded, quoted and commented values, bodies of 0..300 bytes with CR LF / NUL) x segmentations (one piece, byte by byte, every two-way split of the head, 6 random multi-splits): the REAL class http reads them from a loopback TCP connection; CGI environment and body compared with what was encoded')
 jobs = [
-    dict(name='http_parser_step', props=P, enforce='http_parser_step', harness=r'''
+    dict(name='http_parser_step', props=P, **REPLAYH, enforce='http_parser_step', harness=r'''
     SYM_BUF(char, in, n, BUF_CAP); size_t pos, hl, gc; __CPROVER_assume(pos <= n && hl <= BUF_CAP && gc <= BUF_CAP);
     g_in = in; g_in_n = n; g_in_pos = pos; g_hdr_len = hl; g_getc_calls = gc; g_hdr_underflow = 0;
     char a, b; g_hdr_last = a; g_hdr_prev = b; bool u; int uc; g_ungot = u; g_ungot_c = uc;
     struct hparser p;
     http_parser_step(&p); VERIF_REACH;'''),
-    dict(name='proto_separator', props=P, enforce='proto_separator', harness='char c; proto_separator(c); VERIF_REACH;'),
-    dict(name='proto_tocken', props=P, enforce='proto_tocken', replace=['proto_separator'], harness='SYM_BUF(char, b, n, BUF_CAP); size_t k; g_pk = k; proto_tocken(b, b + n); VERIF_REACH;'),
-    dict(name='proto_skip_ws', props=P, enforce='proto_skip_ws', harness='size_t n, k; __CPROVER_assume(n <= BUF_CAP); char *b = malloc(n + 1); __CPROVER_assume(b != NULL); g_pk = k; proto_skip_ws(b, b + n); VERIF_REACH;'),
-    dict(name='http_header_name_step', props=P, enforce='http_header_name_step', harness='char nm[8]; unsigned i; __CPROVER_assume(i < 8); http_header_name_step(nm, i); VERIF_REACH;'),
-    dict(name='http_parse_single_header', props=P, tier='thorough', enforce='http_parse_single_header', replace=['proto_tocken', 'proto_skip_ws'], per_property=r'.', pp_chunk=10, pp_workers=14, timeout=600, harness=r'''
+    dict(name='proto_separator', props=P, **REPLAYH, enforce='proto_separator', harness='char c; proto_separator(c); VERIF_REACH;'),
+    dict(name='proto_tocken', props=P, **REPLAYH, enforce='proto_tocken', replace=['proto_separator'], harness='SYM_BUF(char, b, n, BUF_CAP); size_t k; g_pk = k; proto_tocken(b, b + n); VERIF_REACH;'),
+    dict(name='proto_skip_ws', props=P, **REPLAYH, enforce='proto_skip_ws', harness='size_t n, k; __CPROVER_assume(n <= BUF_CAP); char *b = malloc(n + 1); __CPROVER_assume(b != NULL); g_pk = k; proto_skip_ws(b, b + n); VERIF_REACH;'),
+    dict(name='http_header_name_step', props=P, **REPLAYH, enforce='http_header_name_step', harness='char nm[8]; unsigned i; __CPROVER_assume(i < 8); http_header_name_step(nm, i); VERIF_REACH;'),
+    dict(name='http_parse_single_header', props=P, tier='thorough', **REPLAYH, enforce='http_parse_single_header', replace=['proto_tocken', 'proto_skip_ws'], per_property=r'.', pp_chunk=10, pp_workers=14, timeout=600, harness=r'''
     size_t n, k; __CPROVER_assume(n <= BUF_CAP); char *b = malloc(n + 1); __CPROVER_assume(b != NULL && b[n] == 0); g_pk = k; g_cp_calls = 0; char const *on, *ov;
     http_parse_single_header(b, n, &on, &ov); VERIF_REACH;'''),
-    dict(name='http_request_line', props=P, enforce='http_request_line', replace=['find_ch'], harness=r'''
+    dict(name='http_request_line', props=P, **REPLAYH, enforce='http_request_line', replace=['find_ch'], harness=r'''
     size_t n, k, a, b2; __CPROVER_assume(n <= BUF_CAP); char *b = malloc(n + 1); __CPROVER_assume(b != NULL && b[n] == 0); g_pk = k; g_ga = a; g_gr = b2; g_fc = 0;
     g_pa_calls = 0; g_ps_calls = 0; g_env_calls = 0; g_err_calls = 0; g_sc_calls = 0; struct hreq r;
     http_request_line(&r, b, n); VERIF_REACH;'''),
-    dict(name='http_uri_split', props=P, enforce='http_uri_split', replace=['verif_strchr', 'verif_memcmp2'], harness=r'''
+    dict(name='http_uri_split', props=P, **REPLAYH, enforce='http_uri_split', replace=['verif_strchr', 'verif_memcmp2'], harness=r'''
     size_t n, k, a, sk; unsigned sn; __CPROVER_assume(n <= BUF_CAP && sn <= 200); char *u = malloc(n + 1); __CPROVER_assume(u != NULL && u[n] == 0); g_pk = k; g_ga = a; g_sk = sk;
     g_U = u; g_Un = n; g_end_off = OFF(u) + n; g_sn_n = sn; g_names = malloc((size_t)sn * SNMAX); g_name_len = malloc((size_t)sn * sizeof(size_t)); __CPROVER_assume(g_names != NULL && g_name_len != NULL);
     g_400 = 0; g_envq_calls = 0; g_envs_calls = 0; g_envp_calls = 0; g_envx_calls = 0; g_sn_calls = 0; g_ud_calls = 0; g_cp_len_calls = 0; g_seen_sk = 0;
     struct hreq2 r; r.request_uri_ = u; r.env_query_string_ = nce_string; r.env_script_name_ = nce_string; r.env_path_info_ = nce_string;
     http_uri_split(&r); VERIF_REACH;'''),
+    dict(name='http_async_read_some', props=P, **REPLAYH, enforce='http_async_read_some', harness=r'''
+    struct hbody b; size_t n, sz, k; __CPROVER_assume(n <= BUF_CAP && sz <= BUF_CAP); b.ib_p = malloc(n); b.ib_n = n; char *dst = malloc(sz); __CPROVER_assume(b.ib_p != NULL && dst != NULL); g_pk = k;
+    g_post_calls = 0; g_sock_calls = 0; g_cpy_calls = 0; g_rel_calls = 0; g_n0 = n; g_pt0 = b.input_body_ptr_; g_ibp = b.ib_p;
+    http_async_read_some(&b, dst, sz); VERIF_REACH;'''),
 ]
 
 UNIT = dict(
